@@ -100,8 +100,8 @@ theorem readArrowFrames_ok_iff {χ : Type} (items : List (SItem χ)) (f : χ) :
   _root_.Peppi.readArrowFrames_ok_iff items f
 
 /- from `Peppi.Lemmas.PeppiRead` -/
-theorem peppiLoop_ok {χ : Type} (T : TextOracle) (trailerOk : Bool) :
-    ∀ (es : List (PEntry χ)) (acc : PAcc χ) (g : PGame χ), peppiLoop T false trailerOk acc es = .ok g →
+theorem peppiLoop_ok {μ φ : Type} (T : TextOracle) (trailerOk : Bool) :
+    ∀ (es : List (PEntry μ φ)) (acc : PAcc μ) (g : PGame μ φ), peppiLoop T false trailerOk acc es = .ok g →
       (∃ f pre post, es = pre ++ PEntry.framesArrow true [.chunk f] :: post ∧ g.frames = some f) ∨
       ((∀ m items, PEntry.framesArrow m items ∉ es) ∧ trailerOk = true ∧ g.frames = none) :=
   _root_.Peppi.peppiLoop_ok T trailerOk
@@ -142,27 +142,27 @@ theorem example_A_roundtrip :
   _root_.Peppi.example_A_roundtrip 
 
 /- from `Peppi.SlppCut` -/
-theorem slppReadL_cut {χ : Type} (C : CodecT χ) (T : TextOracle) (g : PGame χ) (startBytes : Bytes) (endBytes : Option Bytes)
+theorem slppReadL_cut {μ φ : Type} (C : CodecT μ φ) (T : TextOracle) (g : PGame μ φ) (startBytes : Bytes) (endBytes : Option Bytes)
     (hstart : gameStart T startBytes = .ok g.start)
     (hend : endBytes.map gameEnd = g.fend.map Res.ok)
     (hgecko : ∀ c, g.gecko = some c → c.2 < 2 ^ 32)
     (hs : SizesOK C.toCodec g startBytes endBytes) (skip : Bool) (n : Nat) :
     (∃ m, slppReadL C.toCodec T skip ((slppWrite C.toCodec g startBytes endBytes).take n) = .err m) ∨
-    slppReadL C.toCodec T skip ((slppWrite C.toCodec g startBytes endBytes).take n) = .ok (if skip then { g with frames := none } else g) :=
+    slppReadL C.toCodec T skip ((slppWrite C.toCodec g startBytes endBytes).take n) = .ok (if skip then { g with frames := none } else { g with frames := g.frames.map C.norm }) :=
   _root_.Peppi.slppReadL_cut C T g startBytes endBytes hstart hend hgecko hs skip n
 
 /- from `Peppi.SlppCut` -/
-theorem slppReadL_written {χ : Type} (C : CodecT χ) (T : TextOracle) (g : PGame χ) (startBytes : Bytes) (endBytes : Option Bytes)
+theorem slppReadL_written {μ φ : Type} (C : CodecT μ φ) (T : TextOracle) (g : PGame μ φ) (startBytes : Bytes) (endBytes : Option Bytes)
     (hstart : gameStart T startBytes = .ok g.start)
     (hend : endBytes.map gameEnd = g.fend.map Res.ok)
     (hgecko : ∀ c, g.gecko = some c → c.2 < 2 ^ 32)
     (hs : SizesOK C.toCodec g startBytes endBytes) (skip : Bool) :
-    slppReadL C.toCodec T skip (slppWrite C.toCodec g startBytes endBytes) = .ok (if skip then { g with frames := none } else g) :=
+    slppReadL C.toCodec T skip (slppWrite C.toCodec g startBytes endBytes) = .ok (if skip then { g with frames := none } else { g with frames := g.frames.map C.norm }) :=
   _root_.Peppi.slppReadL_written C T g startBytes endBytes hstart hend hgecko hs skip
 
 /- from `Peppi.SlppCut` -/
-theorem peppiLoop_cut {χ : Type} (C : Codec χ) (T : TextOracle) (skip : Bool) :
-    ∀ (es : List (Bytes × Bytes)), (∀ e ∈ es, PrefOK C T skip e) → ∀ (n : Nat) (acc : PAcc χ),
+theorem peppiLoop_cut {μ φ : Type} (C : Codec μ φ) (T : TextOracle) (skip : Bool) :
+    ∀ (es : List (Bytes × Bytes)), (∀ e ∈ es, PrefOK C T skip e) → ∀ (n : Nat) (acc : PAcc μ),
       (∃ m, peppiLoop T skip (cutItems es n).2 acc ((cutItems es n).1.map (classifyT C)) = .err m) ∨
       peppiLoop T skip (cutItems es n).2 acc ((cutItems es n).1.map (classifyT C)) = peppiLoop T skip true acc (es.map (classify C)) :=
   _root_.Peppi.peppiLoop_cut C T skip
@@ -176,22 +176,22 @@ theorem tarScan_cut (es : List (Bytes × Bytes)) (hes : ∀ e ∈ es, EntryOK e)
 theorem exPGame_cut (skip : Bool) (n : Nat) :
     (∃ m, slppReadL toyCodecT.toCodec T0 skip ((slppWrite toyCodecT.toCodec exPGame (exBlock 3 17 760) none).take n) = .err m) ∨
     slppReadL toyCodecT.toCodec T0 skip ((slppWrite toyCodecT.toCodec exPGame (exBlock 3 17 760) none).take n) =
-      .ok (if skip then { exPGame with frames := none } else exPGame) :=
+      .ok (if skip then { exPGame with frames := none } else { exPGame with frames := exPGame.frames.map toyCodecT.norm }) :=
   _root_.Peppi.exPGame_cut skip n
 
 /- from `Peppi.SlppCut` -/
-theorem slppReadL_cut_json (C : CodecT KVs) (T : TextOracle) (g : PGame KVs) (startBytes : Bytes) (endBytes : Option Bytes)
+theorem slppReadL_cut_json {φ : Type} (C : CodecT KVs φ) (T : TextOracle) (g : PGame KVs φ) (startBytes : Bytes) (endBytes : Option Bytes)
     (hstart : gameStart T startBytes = .ok g.start)
     (hend : endBytes.map gameEnd = g.fend.map Res.ok)
     (hgecko : ∀ c, g.gecko = some c → c.2 < 2 ^ 32)
     (hs : SizesOK C.withJson.toCodec g startBytes endBytes) (skip : Bool) (n : Nat) :
     (∃ m, slppReadL C.withJson.toCodec T skip ((slppWrite C.withJson.toCodec g startBytes endBytes).take n) = .err m) ∨
     slppReadL C.withJson.toCodec T skip ((slppWrite C.withJson.toCodec g startBytes endBytes).take n) =
-      .ok (if skip then { g with frames := none } else g) :=
+      .ok (if skip then { g with frames := none } else { g with frames := g.frames.map C.norm }) :=
   _root_.Peppi.slppReadL_cut_json C T g startBytes endBytes hstart hend hgecko hs skip n
 
 /- from `Peppi.SlppCut` -/
-theorem slppReadL_noPanic {χ : Type} (C : CodecT χ) (T : TextOracle) (skip : Bool) (bs : Bytes) (s : String) :
+theorem slppReadL_noPanic {μ φ : Type} (C : CodecT μ φ) (T : TextOracle) (skip : Bool) (bs : Bytes) (s : String) :
     slppReadL C.toCodec T skip bs ≠ .panic s :=
   _root_.Peppi.slppReadL_noPanic C T skip bs s
 
